@@ -100,6 +100,31 @@ def impl_object_history(a, dt, how):
     return np.array(s.velocity), np.array(s.displacement), [s.pga, s.pgv, s.pgd], np.array(s.values, dtype=float)
 
 
+STALE_PEAKS = []      # filled by impl_object_rect_after_reads, reported by run()
+STALE_SITE = 'AccSignal.pgv/pgd[read; generate_displacement_and_velocity_series(trap=False); read again]'
+
+
+def impl_object_rect_after_reads(a, dt):
+    """the peaks are read first (memoised from the trapezoid series), then trapezoid integration is switched off on the same
+    object: the series must be the rectangle-rule ones, and PGV/PGD the largest absolute values of the series the object
+    now reports.  The series go to the Coq-side comparison; a memoised peak that is not the peak of the reported series
+    is recorded separately (STALE_SITE)."""
+    import eqsig
+    a = np.array(a, dtype=float)
+    s = eqsig.AccSignal(a, dt)
+    before = [float(s.pgv), float(s.pgd)]
+    s.generate_displacement_and_velocity_series(trap=False)
+    v, d = np.array(s.velocity, dtype=float), np.array(s.displacement, dtype=float)
+    now = [float(s.pgv), float(s.pgd)]
+    want = [float(eqsig.im.calc_peak(v)), float(eqsig.im.calc_peak(d))]
+    if now != want:
+        STALE_PEAKS.append({'function': STALE_SITE, 'args': {'dt': dt, 'acceleration': list(map(float, a))},
+                            'pgv_pgd_read_before': before, 'pgv_pgd_reported_after': now, 'peaks_of_the_reported_series': want})
+    if not np.array_equal(np.array(s.values, dtype=float), a):
+        raise RuntimeError('InputMutated: generate_displacement_and_velocity_series(trap=False) changed the object\'s record')
+    return v, d, [float(s.pga)] + want
+
+
 HOWS = ['reset_values', 'reset_values(shorter)', 'add_series', 'add_constant+add_series']
 
 
@@ -118,8 +143,11 @@ def gen(rng, tier):
             if not isinstance(r, ImplError):
                 a, r = r[3], r[:3]          # the model is given the object's current record
         elif k % 3 == 2:
-            dty = [float, np.int64][(k // 3) % 2]
-            if (k // 6) % 3 == 1:
+            dty = [float, np.int64][(k // 18) % 2]      # k = 6m+5 here: (k // 3) is always odd, so alternate on m // 3
+            if (k // 6) % 3 == 2:
+                r = guarded(impl_object_rect_after_reads, a, dt)
+                site, trap = 'AccSignal[pgv, pgd read]; generate_displacement_and_velocity_series(trap=False); velocity/displacement', False
+            elif (k // 6) % 3 == 1:
                 r = guarded(impl_object_rect, a, dt, dty)
                 site, trap = 'AccSignal.generate_displacement_and_velocity_series(trap=False); velocity/displacement/pga/pgv/pgd' + ('' if dty is float else '[int record]'), False
             else:
@@ -189,6 +217,10 @@ def run(rep, rng, tier):
             continue
         v, d, pk = r
         cases.append(mk_case(site, trap, dt, a, v, d, pk, rtol))
+    for f in STALE_PEAKS:        # listed in known_findings.json (recorded, not repaired): printed as KNOWN-FINDING
+        rep.violation(STALE_SITE, f)
+    rep.extra['stale_peak_histories'] = len(STALE_PEAKS)
+    del STALE_PEAKS[:]
     rep.correspond('model.K_C08', 'check_case', cases, describe='model_out %s')
 
 
